@@ -156,7 +156,7 @@ def run_cases(chk, tier):
         df = make_frame(r, 8, dup=False)
         # base configuration: every position, OSError; the other kinds wherever they apply
         sweep(chk, r, root, df, 2, 3, "inside", ["oserror"], "all", "base")
-        sweep(chk, r, root, df, 2, 3, "inside", ["fnf", "stale", "partial"], "all" if tier != "quick" else 40, "base-kinds")
+        sweep(chk, r, root, df, 2, 3, "inside", ["fnf", "stale", "partial"], "all", "base-kinds")
         # empty output partitions + external temp dir
         dfd = make_frame(r, 9, dup=True)
         sweep(chk, r, root, dfd, 2, 5, "outside-uuid", ["oserror"], "all", "empties")
